@@ -13,14 +13,14 @@ from run import Case
 import zoo
 
 PROPERTY = "C06"
-LEAN_MODULE = "PyOak.Props.C06"
+LEAN_MODULE = "PyOak.Props.C06All"
 THEOREMS = ["PyOak.C06." + t for t in [
     "isInTree_iff", "parentInfo_root", "parentInfo_chain", "parentInfo_foreign", "ancestors_chain",
     "isAncestor_chain", "firstAncestor_chain", "depth_chain", "depth_relative", "depth_non_ancestor",
     "xpath_chain", "exists_chain", "chain_mem"]]
-PARTIAL = ["string-level injectivity of get_xpath (no two nodes share one / following it reaches the node) is not yet "
-           "a theorem: xpath_chain proves get_xpath = spelling of the chain; distinctness and followability are checked "
-           "on the real code by the in-process oracle of every run"]
+THEOREMS += ["PyOak.C06X." + t for t in ["parseSpell_spell", "spellChain_injective", "spellChain_positions",
+                                          "xpath_injective", "follow_spell", "follow_getXpath", "namesOK_of_wfn",
+                                          "fieldsOK_of_wfn"]]
 RULE = ("seeded zoo trees without repeated objects (content-identical twins at different positions included), "
         "every node as query argument for is_in_tree/is_root/get_parent/get_parent_info/get_ancestors/get_xpath/"
         "get_depth, sampled pairs for is_ancestor/relative get_depth/get_first_ancestor_of_type, foreign nodes that "
